@@ -125,8 +125,16 @@ def r14_1(ctx):
     if comp:
         c = comp[0]
         g = c.generators[0]
-        ok = ast.unparse(g.iter) == "after.items()" and len(g.ifs) == 1 and \
-            ast.unparse(g.ifs[0]).replace(", None", "") == "before.get(k) != v" and ast.unparse(c.elt) == "(k, v)"
+        cond = ast.unparse(g.ifs[0]) if len(g.ifs) == 1 else ""
+        kv = [t.id for t in g.target.elts] if isinstance(g.target, ast.Tuple) and all(isinstance(t, ast.Name) for t in g.target.elts) else ["?", "?"]
+        k_, v_ = kv[0], kv[1]
+        explicit = cond in (f"{k_} not in before or before[{k_}] != {v_}", f"before[{k_}] != {v_} or {k_} not in before") or \
+            cond.startswith(f"{k_} not in before or ")
+        ok = ast.unparse(g.iter) == "after.items()" and explicit and ast.unparse(c.elt) == f"({k_}, {v_})"
+        if ast.unparse(g.iter) == "after.items()" and (cond.replace(", None", "") == f"before.get({k_}) != {v_}"):
+            ctx.bad(construct, "`before.get(k, None) != v` takes an absent key for the value None: an option that becomes present with the value null "
+                    "(a number without any value) is never reported, while a fresh server's initial message lists it", df.loc())
+            return
     (ctx.ok(construct, df.loc()) if ok else ctx.bad(construct, "diff() changed shape", df.loc()))
 
 
